@@ -213,3 +213,15 @@ Definition interleaving_of (xs : list xch) (fs : list (bool * dframe)) : Prop :=
   NoDup (map xc_sid xs) /\
   Forall (fun e => exchange (xc_sid e) (xc_frames e) (xc_out e) /\ filter (own (xc_sid e)) fs = xc_frames e) xs /\
   Forall (fun f => is_goaway (snd f) = false /\ forall t, fsid (snd f) = Some t -> In t (map xc_sid xs)) fs.
+
+(* ---------------------------------------------------------------------------------------- *)
+(* L1/L2: every byte the caller gets goes through the frame tracer, error or not            *)
+(* ---------------------------------------------------------------------------------------- *)
+(* what the inner conn's Reads delivered / what the caller handed to Write, call by call *)
+Definition read_chunks (ops : list op) : list bytes :=
+  flat_map (fun o => match o with ORead d _ => [d] | _ => [] end) ops.
+Definition write_chunks (ops : list op) : list bytes :=
+  flat_map (fun o => match o with OWrite d _ _ => [d] | _ => [] end) ops.
+
+(* the error classes after which the connection is given up (everything but nil and, for Read, a timeout) *)
+Definition read_fatal (e : N) : bool := negb ((e =? 0) || (e =? 2)).
